@@ -155,8 +155,13 @@ pub fn run_burst(focus: &'static str, seed: u64, index: u64) -> CaseOut {
     let mut exec_order: Vec<u64> = Vec::new();
     let mut open: Option<u64> = None;
     let mut sent: BTreeSet<u64> = BTreeSet::new();
+    // uids are process-wide and increasing: a worker event whose uid is below the first uid sent in this case belongs to the
+    // cache of an earlier case (its worker may handle its last queued command while that cache is being dropped)
+    let first_uid = events.iter().filter_map(|r| if let Event::Sent { uid, .. } = &r.event { Some(*uid) } else { None }).min().unwrap_or(0);
+    let stale = |uid: &u64| *uid < first_uid;
     for rec in &events {
         match &rec.event {
+            Event::ExecBegin { uid, .. } | Event::ExecEnd { uid, .. } if stale(uid) => { counts.inc("events_of_an_earlier_cache_ignored"); }
             Event::Sent { uid, .. } => { sent.insert(*uid); }
             Event::ExecBegin { uid, .. } => {
                 if let Some(o) = open { fail(&mut findings, &["C11"], "C11/overlapping-execution".into(), format!("command {} began while command {} was still executing", uid, o), witness_for(&[o, *uid])); }
@@ -397,8 +402,10 @@ pub fn run_shutdown(focus: &'static str, seed: u64, index: u64) -> CaseOut {
     let mut ran: HashMap<u64, CommandStatus> = HashMap::new();
     let mut drained: BTreeSet<u64> = BTreeSet::new();
     let mut shutdown_cmds = 0;
+    let first_uid = events.iter().filter_map(|r| if let Event::Sent { uid, .. } = &r.event { Some(*uid) } else { None }).min().unwrap_or(0);
     for rec in &events {
         match &rec.event {
+            Event::ExecBegin { uid, .. } | Event::ExecEnd { uid, .. } | Event::Drained { uid } if *uid < first_uid => { counts.inc("events_of_an_earlier_cache_ignored"); }
             Event::ExecEnd { uid, status } => { ran.insert(*uid, *status); }
             Event::Drained { uid } => { drained.insert(*uid); }
             Event::ExecBegin { kind: CommandKind::Shutdown, .. } => { shutdown_cmds += 1; }
